@@ -203,6 +203,8 @@ var degenerateForms = []string{
 	"harr[0:2]", "harr[1:]", "harr[:2]", "harr[0:1:2]", "harr[0]", "harr[5]", "harr[0] = 9", "harr[0:2] = [7, 8]", "for q in harr { q }", "len(harr)", "harr + 4", "harr + [4]", "harrs[0][0:2]", "harrs[0][0] = 5\nharrs",
 	"x2 = harr\nx2[0:2]", "[harr][0][1:]", "id(harr)[0:2]", "harr == harr", "harr in [harr]", "toString(harr)", "keys(harr)", "harr...", "sum(harr...)", "arr2(harr)",
 	"hemb.X", "hemb.Y", "hemb.X = 1", "hemb.Y = 1\nhemb.Y", "hemb.Get()", "hembv.X", "hembv.Y", "hembv.X = 1", "hembs[0].X", "hembs[0].X = 2", "toString(hemb)", "hemb == hemb", "for q in hembs { q.X }", "x3 = hemb\nx3.X", "[hemb][0].X", "hemb.npInner", "hemb.npInner.X",
+	// types too large for a channel element (64 KiB: three levels of 16 fields over string) in every position a type expression stands in
+	"make(type XA, make(struct {A0 string, A1 string, A2 string, A3 string, A4 string, A5 string, A6 string, A7 string, A8 string, A9 string, A10 string, A11 string, A12 string, A13 string, A14 string, A15 string}))\nmake(type XB, make(struct {B0 XA, B1 XA, B2 XA, B3 XA, B4 XA, B5 XA, B6 XA, B7 XA, B8 XA, B9 XA, B10 XA, B11 XA, B12 XA, B13 XA, B14 XA, B15 XA}))\nmake(type XC, make(struct {C0 XB, C1 XB, C2 XB, C3 XB, C4 XB, C5 XB, C6 XB, C7 XB, C8 XB, C9 XB, C10 XB, C11 XB, C12 XB, C13 XB, C14 XB, C15 XB}))\ncc = make(chan XC)", "make(type XA, make(struct {A0 string, A1 string, A2 string, A3 string, A4 string, A5 string, A6 string, A7 string, A8 string, A9 string, A10 string, A11 string, A12 string, A13 string, A14 string, A15 string}))\nmake(type XB, make(struct {B0 XA, B1 XA, B2 XA, B3 XA, B4 XA, B5 XA, B6 XA, B7 XA, B8 XA, B9 XA, B10 XA, B11 XA, B12 XA, B13 XA, B14 XA, B15 XA}))\nmake(type XC, make(struct {C0 XB, C1 XB, C2 XB, C3 XB, C4 XB, C5 XB, C6 XB, C7 XB, C8 XB, C9 XB, C10 XB, C11 XB, C12 XB, C13 XB, C14 XB, C15 XB}))\ncc = make(chan XC, 1)", "make(type XA, make(struct {A0 string, A1 string, A2 string, A3 string, A4 string, A5 string, A6 string, A7 string, A8 string, A9 string, A10 string, A11 string, A12 string, A13 string, A14 string, A15 string}))\nmake(type XB, make(struct {B0 XA, B1 XA, B2 XA, B3 XA, B4 XA, B5 XA, B6 XA, B7 XA, B8 XA, B9 XA, B10 XA, B11 XA, B12 XA, B13 XA, B14 XA, B15 XA}))\nmake(type XC, make(struct {C0 XB, C1 XB, C2 XB, C3 XB, C4 XB, C5 XB, C6 XB, C7 XB, C8 XB, C9 XB, C10 XB, C11 XB, C12 XB, C13 XB, C14 XB, C15 XB}))\nss = make([]chan XC, 1)", "make(type XA, make(struct {A0 string, A1 string, A2 string, A3 string, A4 string, A5 string, A6 string, A7 string, A8 string, A9 string, A10 string, A11 string, A12 string, A13 string, A14 string, A15 string}))\nmake(type XB, make(struct {B0 XA, B1 XA, B2 XA, B3 XA, B4 XA, B5 XA, B6 XA, B7 XA, B8 XA, B9 XA, B10 XA, B11 XA, B12 XA, B13 XA, B14 XA, B15 XA}))\nmake(type XC, make(struct {C0 XB, C1 XB, C2 XB, C3 XB, C4 XB, C5 XB, C6 XB, C7 XB, C8 XB, C9 XB, C10 XB, C11 XB, C12 XB, C13 XB, C14 XB, C15 XB}))\nmm = make(map[string]chan XC)", "make(type XA, make(struct {A0 string, A1 string, A2 string, A3 string, A4 string, A5 string, A6 string, A7 string, A8 string, A9 string, A10 string, A11 string, A12 string, A13 string, A14 string, A15 string}))\nmake(type XB, make(struct {B0 XA, B1 XA, B2 XA, B3 XA, B4 XA, B5 XA, B6 XA, B7 XA, B8 XA, B9 XA, B10 XA, B11 XA, B12 XA, B13 XA, B14 XA, B15 XA}))\nmake(type XC, make(struct {C0 XB, C1 XB, C2 XB, C3 XB, C4 XB, C5 XB, C6 XB, C7 XB, C8 XB, C9 XB, C10 XB, C11 XB, C12 XB, C13 XB, C14 XB, C15 XB}))\npp = new(chan XC)", "make(type XA, make(struct {A0 string, A1 string, A2 string, A3 string, A4 string, A5 string, A6 string, A7 string, A8 string, A9 string, A10 string, A11 string, A12 string, A13 string, A14 string, A15 string}))\nmake(type XB, make(struct {B0 XA, B1 XA, B2 XA, B3 XA, B4 XA, B5 XA, B6 XA, B7 XA, B8 XA, B9 XA, B10 XA, B11 XA, B12 XA, B13 XA, B14 XA, B15 XA}))\nmake(type XC, make(struct {C0 XB, C1 XB, C2 XB, C3 XB, C4 XB, C5 XB, C6 XB, C7 XB, C8 XB, C9 XB, C10 XB, C11 XB, C12 XB, C13 XB, C14 XB, C15 XB}))\nss = []chan XC{}", "make(type XA, make(struct {A0 string, A1 string, A2 string, A3 string, A4 string, A5 string, A6 string, A7 string, A8 string, A9 string, A10 string, A11 string, A12 string, A13 string, A14 string, A15 string}))\nmake(type XB, make(struct {B0 XA, B1 XA, B2 XA, B3 XA, B4 XA, B5 XA, B6 XA, B7 XA, B8 XA, B9 XA, B10 XA, B11 XA, B12 XA, B13 XA, B14 XA, B15 XA}))\nmake(type XC, make(struct {C0 XB, C1 XB, C2 XB, C3 XB, C4 XB, C5 XB, C6 XB, C7 XB, C8 XB, C9 XB, C10 XB, C11 XB, C12 XB, C13 XB, C14 XB, C15 XB}))\nmm = map[string]chan XC{}", "make(type XA, make(struct {A0 string, A1 string, A2 string, A3 string, A4 string, A5 string, A6 string, A7 string, A8 string, A9 string, A10 string, A11 string, A12 string, A13 string, A14 string, A15 string}))\nmake(type XB, make(struct {B0 XA, B1 XA, B2 XA, B3 XA, B4 XA, B5 XA, B6 XA, B7 XA, B8 XA, B9 XA, B10 XA, B11 XA, B12 XA, B13 XA, B14 XA, B15 XA}))\nmake(type XC, make(struct {C0 XB, C1 XB, C2 XB, C3 XB, C4 XB, C5 XB, C6 XB, C7 XB, C8 XB, C9 XB, C10 XB, C11 XB, C12 XB, C13 XB, C14 XB, C15 XB}))\nmake(type XD, make(chan XC))", "make(type XA, make(struct {A0 string, A1 string, A2 string, A3 string, A4 string, A5 string, A6 string, A7 string, A8 string, A9 string, A10 string, A11 string, A12 string, A13 string, A14 string, A15 string}))\nmake(type XB, make(struct {B0 XA, B1 XA, B2 XA, B3 XA, B4 XA, B5 XA, B6 XA, B7 XA, B8 XA, B9 XA, B10 XA, B11 XA, B12 XA, B13 XA, B14 XA, B15 XA}))\nmake(type XC, make(struct {C0 XB, C1 XB, C2 XB, C3 XB, C4 XB, C5 XB, C6 XB, C7 XB, C8 XB, C9 XB, C10 XB, C11 XB, C12 XB, C13 XB, C14 XB, C15 XB}))\nfunc() { return make(chan XC) }()", "make(type XA, make(struct {A0 string, A1 string, A2 string, A3 string, A4 string, A5 string, A6 string, A7 string, A8 string, A9 string, A10 string, A11 string, A12 string, A13 string, A14 string, A15 string}))\nmake(type XB, make(struct {B0 XA, B1 XA, B2 XA, B3 XA, B4 XA, B5 XA, B6 XA, B7 XA, B8 XA, B9 XA, B10 XA, B11 XA, B12 XA, B13 XA, B14 XA, B15 XA}))\nmake(type XC, make(struct {C0 XB, C1 XB, C2 XB, C3 XB, C4 XB, C5 XB, C6 XB, C7 XB, C8 XB, C9 XB, C10 XB, C11 XB, C12 XB, C13 XB, C14 XB, C15 XB}))\nvv = make(XC)\nlen([vv])",
 	"func rec(n) { return rec(n) }", "type T struct", "struct", "chan", "map", "len", "return 1, ", "throw", "break", "continue", "return",
 }
 
